@@ -91,6 +91,8 @@ func c03(w *core.World, r *core.Report) {
 	ruleTtlNeverZero(w, r)
 	r.Rule("R03.14", "nil means 'end of the packed structure' and nothing else: an element (also an empty one) is never answered with nil", 3)
 	ruleNilIsEndOnly(w, r)
+	r.Rule("R10.15", "every snapshot entry the filters let through is replayed: an intact entry is withheld only by the database, key or slot rule (shared with C10)", 2)
+	ruleWithheldOnlyByFilters(w, r)
 	r.Rule("R20.11", "chunks of one key are appended in order by one worker: the distributor picks the worker of a keyed entry from the key alone (shared with C20)", 1)
 	ruleChunksSameWorker(w, r)
 	r.Rule("R03.12", "the database an entry is replayed into: tracked database starts unknown/fresh, changes only with selectDB's result, and every change is sent to the target before the next entry (shared with R01.6)", 4)
